@@ -27,7 +27,7 @@ pub const KINDS: [&str; 8] = [
     // a context function that is the TARGET of a compound assignment (`f += 1` evaluates f first)
     "ctx_function_compound_target",
 ];
-pub const ACTIONS: [&str; 11] = [
+pub const ACTIONS: [&str; 13] = [
     "parse_expression",
     "execute_new_context",
     "register_function",
@@ -40,6 +40,10 @@ pub const ACTIONS: [&str; 11] = [
     "dump_own_context",
     // the nested evaluation FAILS after it evaluated some operands; the handler swallows the error
     "execute_failing_program",
+    // the handler's own result IS the outcome of a nested evaluation: a value ...
+    "delegate_to_nested_evaluation",
+    // ... or the very Err the nested evaluation produced (an unknown function), which must fail the outer one
+    "delegate_to_failing_nested_evaluation",
 ];
 pub const POSITIONS: [&str; 9] = [
     "root",
@@ -141,6 +145,16 @@ fn action(case: &mut Case, a: usize, target: Option<&str>) -> (Vec<Op>, Option<E
             Ret::Const(Val::int(7)),
         ),
         9 => (vec![], None, Ret::DumpSlot(0)),
+        11 => (
+            vec![],
+            None,
+            Ret::Delegate(Prog::one(bin("+", rf("v"), lit_i(3))), CtxSpec { vars: vec![("v".into(), Val::int(4))], funcs: vec![] }),
+        ),
+        12 => (
+            vec![],
+            None,
+            Ret::Delegate(Prog::Stmts(vec![bin("=", rf("q"), lit_i(1)), call("function_that_exists_nowhere", vec![rf("q")])]), CtxSpec::empty()),
+        ),
         _ => (
             vec![
                 Op::Exec { prog: Prog::one(call("max", vec![lit_i(7), lit_i(8), bin("+", lit_b(true), lit_i(1))])), ctx: fresh() },
@@ -219,6 +233,8 @@ pub fn matrix_case(k: usize, a: usize, p: usize) -> Case {
     let (ops, later, ret) = action(&mut case, a, if p == 6 { Some("t") } else { None });
     // a DumpSlot / constant return for the kinds whose value is used arithmetically
     let ret = if k == 7 && matches!(ret, Ret::DumpSlot(_)) { Ret::Const(Val::int(7)) } else { ret };
+    // after a delegating handler failed, a later statement must not run
+    let later = if a == 12 { Some(bin("=", rf("after_failure"), lit_i(1))) } else { later };
     let h = case.add_handler(HandlerSpec { kind: hkind(k), ret, actions: ops });
     if p == 8 {
         let pk = marker(&mut case, HKind::Func);
@@ -421,7 +437,7 @@ impl Prop for C14 {
             rule: "exhaustive part: every existing cell of handler kind {global function, prefix, infix, postfix, context function by call, context function by \
                    bare name, user-registered SETTER operator, context function as the target of a compound assignment} x re-entrant action {parse_expression, execute on a new context, register_function/prefix/infix/postfix, and for context \
                    functions: lock the evaluating context's handle and read / write it / evaluate on a Context sharing it / dump it} x program position {root, \
-                   nested operand, then-branch, else-branch, and for register_function: as an argument of the very function it registers / replaces} = 400 cases, all run on every invocation; sampled part: seeded chains of 2..4 re-entrant \
+                   nested operand, then-branch, else-branch, and for register_function: as an argument of the very function it registers / replaces} = 464 cases, all run on every invocation; sampled part: seeded chains of 2..4 re-entrant \
                    handlers each evaluating a program that invokes the next, in a third of them with a bystander thread that registers and evaluates concurrently \
                    (seeded schedules). Fresh simulated process per case. evaluations = simulated \
                    executions; distinct_nontrivial = distinct cases in which at least one re-entrant action was actually performed inside a handler",
